@@ -240,6 +240,7 @@ def run(ck):
     ck.floor("C03.2 judged loops", judged, 1)
 
     # ---- C03.4: the joined value = aggregator(list(generator())) with the generator walking self.alignedPairs
+    walk_args = []
     for pa in paths:
         joins = find_terms(pa.value, lambda x: x[0] == "mcall" and x[2] == "join") if pa.value is not None else []
         if not joins:
@@ -254,6 +255,8 @@ def run(ck):
             inner = inner[2][0]
         one_walk = inner[0] == "app" and inner[1] == gen_q and inner[2] == V(cigar.self_name)
         if one_walk:
+            walk_args.append(list(dict(inner[3]).values()))
+        if one_walk:
             ck.ok("C03.4", short(cigar) + ":one-walk", w, "HitEnum is produced by one walk of the operation generator over the record")
         else:
             ck.violation("C03.4", short(cigar) + ":one-walk", w, "HitEnum is not produced by a single walk over all pairs of the record "
@@ -266,7 +269,12 @@ def run(ck):
             if e.kind == "assign" and any(x == self_attr("alignedPairs") for x in T.subterms(e.term)):
                 src_ok = True
     gparams = gen.call_params()
-    if gparams:
+    handed_own = bool(walk_args) and all(len(a) == len(gparams) and all(v0 == self_attr("alignedPairs") for v0 in a) for a in walk_args)
+    if len(gparams) == 1 and handed_own and any(
+            any(x == V(gparams[0].name) for x in T.subterms(e.term)) for pa in gpaths for e in pa.events if e.kind == "assign"):
+        # the pair list is collected once by the caller and handed over: the same walk over self.alignedPairs
+        ck.ok("C03.4", short(gen) + ":source", gen.where, "the walk covers the record's own pair list, handed over by cigarString", "")
+    elif gparams:
         ck.violation("C03.4", short(gen) + ":source", gen.where, "the operation generator no longer walks the record's own pair list "
                      "(it takes the pairs to walk as an argument)", found=f"parameters {[pp.name for pp in gparams]}",
                      required="walk over self.alignedPairs")
